@@ -45,11 +45,27 @@ unsigned long strtoul(const char *nptr, char **endptr, int base)
   __CPROVER_assume(k <= len);
   if (endptr) *endptr = (char *)nptr + k;
   if (verif_num_is_count) return XNBOBJS;
+#ifdef XNUM_MAX
+  { unsigned long v = nondet_ulong(); __CPROVER_assume(v <= XNUM_MAX); return v; }
+#else
   return nondet_ulong();
+#endif
 }
 unsigned long long strtoull(const char *nptr, char **endptr, int base) { return strtoul(nptr, endptr, base); }
 int atoi(const char *s) { (void)s[0]; return nondet_int(); }
 char *getenv(const char *name) { (void)name; return (char *)0; }
+/* sprintf model for the one call of hwloc__xml_import_userdata ("base64%c%s" / "normal%c%s"): 6 + 1 + strlen(last argument) characters and the NUL */
+#include <stdarg.h>
+int sprintf(char *dst, const char *fmt, ...)
+{
+  va_list ap; int c; const char *tail; size_t n, i;
+  va_start(ap, fmt); c = va_arg(ap, int); tail = va_arg(ap, const char *); va_end(ap);
+  (void)c; (void)fmt[0];
+  n = 7 + strlen(tail);
+  for (i = 0; i < 12; i++) if (i < n) dst[i] = 'x';
+  dst[n] = 0;
+  return (int)n;
+}
 #include HWLOC_VERIF_SRC_XML
 
 int hwloc_type_sscanf(const char *string, hwloc_obj_type_t *typep, union hwloc_obj_attr_u *attrp, size_t attrsize)
@@ -74,5 +90,16 @@ int hwloc_internal_distances_add_by_index(hwloc_topology_t topology, const char 
   verif_add_calls++; verif_add_name = name; verif_add_nbobjs = nbobjs; verif_add_kind = kind;
   free(indexes); free(values); free(different_types);
   return 0;
+}
+/* base64.c is not part of this TU: contract of hwloc_decode_from_base64 (checked on the real function under C05/C06): reads the
+ * NUL-terminated source, writes at most targsize bytes, returns -1 or a length <= targsize */
+int hwloc_decode_from_base64(char const *src, char *target, size_t targsize)
+{
+  int r = nondet_int(); size_t k = nondet_size_t();
+  (void)strlen(src);
+  if (r < 0) return -1;
+  __CPROVER_assume((size_t)r <= targsize);
+  if (target && k < (size_t)r) target[k] = nondet_char();
+  return r;
 }
 #include "xml.harness.c"
